@@ -12,9 +12,9 @@ HARNESSES = [
     H('siphash_bytes', 'siphash.cpp', 'h_siphash_bytes', link=['crypto/siphash.cpp'], variants=[{'MLEN': n} for n in (0, 7, 8, 9, 16, 17)], tvariants=[{'MLEN': n} for n in range(0, 34)],
       unwind=40, timeout=600, opt='-O0', objbits=12, backends=['cvc5', 'kissat'], witness_backends=['default'], functions=['CSipHasher::CSipHasher', 'CSipHasher::Write(uint64_t)', 'CSipHasher::Write(std::span)', 'CSipHasher::Finalize', 'SipHashState::SipRound/Compress2/Finalize4'],
       bounds='message lengths 0,7,8,9,16,17 (thorough 0..33), all bytes and both key words symbolic'),
-    H('siphash_chunks', 'siphash.cpp', 'h_siphash_chunks', link=['crypto/siphash.cpp'], variants=[{'MLEN': 9}, {'MLEN': 17, 'TWO_WRITES': 1}], tvariants=[{'MLEN': n} for n in (1, 7, 8, 9, 16, 17)] + [{'MLEN': 33, 'TWO_WRITES': 1}],
+    H('siphash_chunks', 'siphash.cpp', 'h_siphash_chunks', link=['crypto/siphash.cpp'], variants=[{'MLEN': 5}, {'MLEN': 17, 'TWO_WRITES': 1}], tvariants=[{'MLEN': n} for n in (1, 5, 7, 8, 9, 16, 17)] + [{'MLEN': 33, 'TWO_WRITES': 1}],
       unwind=40, timeout=900, backends=['cvc5', 'kissat'], witness_backends=['default'], functions=['CSipHasher::Write(std::span)', 'CSipHasher::Finalize'],
-      bounds='length 9: every pair of cut points 0 <= c1 <= c2 <= 9 (three writes); length 17: every single cut point (two writes); thorough: three writes up to length 17, two writes at 33; bytes and keys symbolic'),
+      bounds='length 5: every pair of cut points 0 <= c1 <= c2 <= 5 (three writes); length 17: every single cut point (two writes); thorough: three writes for lengths 1,5,7,8,9,16,17, two writes at 33; bytes and keys symbolic'),
     H('siphash_u256', 'siphash.cpp', 'h_siphash_u256', link=['crypto/siphash.cpp', 'uint256.cpp'], unwind=40, timeout=600, opt='-O0', objbits=12, backends=['cvc5', 'kissat'], witness_backends=['default'],
       functions=['PresaltedSipHasher::operator()(uint256)', 'PresaltedSipHasher::operator()(uint256, uint32_t)'], bounds='all 256-bit values, 32-bit extra, 128-bit keys'),
     H('chacha20_block', 'chacha20.cpp', 'h_chacha20_block', variants=[{'NBLK': 1}, {'NBLK': 2}], unwind=140, timeout=900, backends=['kissat-sweep', 'kissat'],
